@@ -33,6 +33,7 @@ def run(prog, chk):
     chk.guard(r046, prog, chk)
     chk.guard(r047, prog, chk)
     chk.guard(r048, prog, chk)
+    chk.guard(r049, prog, chk)
 
 
 # ----------------------------------------------------------------------------- R04.1
@@ -375,7 +376,42 @@ def r048(prog, chk):
     chk.minimum("R04.8", 6)
 
 
+
+# ----------------------------------------------------------------------------- R04.9
+def r049(prog, chk):
+    """A glyph is recorded without a box only when the compiled glyph has no outline at all (the recalculated box is the
+    all-zero EMPTY_BOUNDING_BOX, or the charstring has no bounds): any other glyph keeps its box, so that side bearings,
+    header extremes and the font box are computed from every glyph that has points."""
+    ix = prog.ix
+    mod = ix.get_module("ufo2ft.outlineCompiler")
+    e = mod.constants.get("EMPTY_BOUNDING_BOX")
+    ok0 = e is not None and isinstance(e, ast.Call) and A.callee_name(e) == "BoundingBox" and [A.is_const(a, 0) for a in e.args] == [True] * 4
+    chk.ob("R04.9", "EMPTY_BOUNDING_BOX = BoundingBox(0, 0, 0, 0)", ok0, mod.relpath, detail=T(e) if e is not None else "", message="EMPTY_BOUNDING_BOX is no longer the all-zero box")
+    n = 0
+    for cq in (OTF_OUTLINE, TTF_OUTLINE):
+        m = ix.get_method(cq, "makeGlyphsBoundingBoxes", own=True)
+        rets = A.returns_of(m.node)
+        need(len(rets) == 1 and isinstance(rets[0].value, ast.Name), f"cannot interpret {m.short}: returned table")
+        table = rets[0].value.id
+        for st, t, v in subscript_stores(m):
+            if T(t.value) != table:
+                continue
+            need(isinstance(v, ast.Name), f"cannot interpret {m.short}: `{T(st, 50)}`")
+            for d in prog.reaching(m, v.id, v):
+                if d.value is not None and A.is_const(d.value, None):
+                    n += 1
+                    fs = facts(prog, m, d.binder)
+                    ok = any(o == "eq" and {l, r} == {v.id, "EMPTY_BOUNDING_BOX"} for o, l, r in fs) and len([x for x in fs if x[1] == v.id or x[2] == v.id]) == 1
+                    chk.ob("R04.9", f"{m.short}|a box is dropped only when it is the all-zero box of an empty glyph", ok, where(m, d.binder), detail=f"{v.id} = None under {v.id} == EMPTY_BOUNDING_BOX",
+                           message=f"{m.short}: a glyph loses its bounding box under another test than `{v.id} == EMPTY_BOUNDING_BOX`: a glyph that has points (e.g. a single point, or coincident "
+                                   f"points) is then treated as empty - its side bearing is written as 0 and it is left out of the header extremes and the font box")
+    need(n >= 2, "no None-box decision found in makeGlyphsBoundingBoxes")
+    chk.minimum("R04.9", 3)
+
+
 MUTANTS = [
+    M("zero-extent boxes treated as empty (seeded C04f)", "ufo2ft/outlineCompiler.py", "OutlineTTFCompiler.makeGlyphsBoundingBoxes",
+      "bounds == EMPTY_BOUNDING_BOX", "bounds.xMin == bounds.xMax and bounds.yMin == bounds.yMax", rule="R04.9"),
     M("default vertical origin hoisted out of the loop, explicit origins leak into later glyphs (seeded C04c)", "ufo2ft/outlineCompiler.py", "BaseOutlineCompiler.setupTable_vmtx",
       "verticalOrigin = _getVerticalOrigin(self.otf, glyph)", "if getattr(glyph, 'verticalOrigin', None) is not None:\n    verticalOrigin = otRound(glyph.verticalOrigin)", rule="R04.8"),
     M("left bearing only recomputed for glyphs with a box", "ufo2ft/outlineCompiler.py", "BaseOutlineCompiler.setupTable_hmtx",
